@@ -2,6 +2,7 @@
   Invariants of the PUSH model (Model/Push.lean) over all event sequences.
 -/
 import NngModel.Model.Push
+import NngModel.Generated.C06
 namespace Nng.Push
 open Nng Nng.Proto
 
